@@ -68,8 +68,17 @@ def mutate_part(g, p):
     r = g.r
     if p[0] == "prim":
         x = r.random()
-        if x < 0.4:
+        if x < 0.3:
             return copy.deepcopy(p), "rebuilt"
+        if x < 0.45:
+            # the part object the plain key / index stands for, written out: the parts are equal, the path is
+            # no longer concrete (it yields a list of matches instead of the single node)
+            v = p[1]
+            none = {"key": None, "index": None, "value": None, "condition": None, "list_condition": None,
+                    "map_condition": None, "label": None}
+            if isinstance(v, int) and not isinstance(v, bool):
+                return ("molv", dict(none, key=("v", v), index=("v", v))), "explicit-part"
+            return ("map", dict(none, key=("v", v))), "explicit-part"
         v = p[1]
         alts = {str: ["a", "b", "zz"], int: [0, 1, 2, 7], float: [0.5, 1.0, 2.0], bool: [True, False]}[type(v)]
         if x < 0.8:
